@@ -106,6 +106,15 @@ Definition spec_best (name : str) (es : list entry) : option str :=
     | d :: ds => Some (name ++ AT :: max_str d ds ++ DOT_YANG)
     end.
 
+(* the calendar reading of YYYY-MM-DD as the number YYYYMMDD *)
+Definition date_num (d : str) : N :=
+  match d with
+  | [y1; y2; y3; y4; _; m1; m2; _; d1; d2] =>
+      let v c := (c - 48)%N in
+      (((((((v y1 * 10 + v y2) * 10 + v y3) * 10 + v y4) * 10 + v m1) * 10 + v m2) * 10 + v d1) * 10 + v d2)%N
+  | _ => 0%N
+  end.
+
 (* a file that belongs to module [name] *)
 Definition candidate (name fn : str) : Prop :=
   fn = name ++ DOT_YANG \/ exists d, date_shaped d = true /\ fn = name ++ AT :: d ++ DOT_YANG.
